@@ -237,7 +237,7 @@ struct st {
     do {                                                                       \
         if (!(st_)->viol) {                                                    \
             (st_)->viol = true;                                                \
-            snprintf((st_)->viol_sig, sizeof((st_)->viol_sig), "%s:%s", g_row->name, sig_); \
+            snprintf((st_)->viol_sig, sizeof((st_)->viol_sig), "%s:%s%s", g_row->name, sig_, g_prov == 2 ? "@late-provider" : ""); \
             snprintf((st_)->viol_msg, sizeof((st_)->viol_msg), __VA_ARGS__);   \
         }                                                                      \
     } while (0)
@@ -1732,8 +1732,8 @@ static bool op_enabled(struct st *st, int op)
         return r->uses_pumps;
     if (op == OP_PROBE_DROP)
         return !strcmp(r->name, "probe_uref");
-    if (op == OP_UPREQ)
-        return r->kind == K_ONE2ONE || r->kind == K_DUP || r->kind == K_HOLD;
+    if (op == OP_UPREQ) /* (not together with the need_output handler: the upstream would re-enter the pipe from inside that handler) */
+        return (r->kind == K_ONE2ONE || r->kind == K_DUP || r->kind == K_HOLD) && !s->need_output_react;
     if (op == OP_PROBE_TEARDOWN)
         return r->has_subs && !r->sub_io && !s->probe_teardown;
     if (op == OP_IN_PUMP)
@@ -1745,7 +1745,7 @@ static bool op_enabled(struct st *st, int op)
     if (op == OP_PROVIDE)
         return g_prov == 2 && px_pending_requests(&s->fx) > 0;
     if (op == OP_NEED_OUTPUT)
-        return r->kind == K_ONE2ONE && !r->has_subs && !s->need_output_react;
+        return r->kind == K_ONE2ONE && !r->has_subs && !s->need_output_react && !s->up_registered;
     return true;
 }
 
@@ -1900,11 +1900,16 @@ static void check_c05(struct st *st, struct side *s)
             struct expect *x = &st->exp[g->seq];
             if (g->seq == last)
                 FAIL(st, "c05:duplicated", "sink %d received buffer seq=%" PRId64 " twice", k, g->seq);
-            else if (g->seq < last)
+            else if (g->seq < last && !(s->need_output_reacted && (x->reentrant || st->exp[last].reentrant)))
+                /* (a buffer pushed from inside a request callback that runs inside the application's need_output handler overtakes
+                 * the buffer whose delivery triggered the handler: the upstream re-entered the pipe, not a reordering by the pipe) */
                 FAIL(st, "c05:reordered", "sink %d received buffer seq=%" PRId64 " after seq=%" PRId64, k, g->seq, last);
-            last = g->seq;
+            if (g->seq > last)
+                last = g->seq;
             if (!x->forwarded)
                 FAIL(st, "c05:forwarded-unexpectedly", "sink %d received buffer seq=%" PRId64 " that the pipe is documented to drop", k, g->seq);
+            if (g_prov == 2 && st->opt_changed_after_input)
+                continue; /* a buffer kept while the pipe waited for a manager is transformed with the options in force when it is finally processed */
             if (g->size != x->rec.size || g->nbytes != x->rec.nbytes || memcmp(g->bytes, x->rec.bytes, g->nbytes > 0 ? g->nbytes : 0))
                 FAIL(st, "c05:payload-changed", "sink %d: buffer seq=%" PRId64 " arrived with size %d (expected %d) / different octets (first %02x, expected %02x)", k,
                      g->seq, g->size, x->rec.size, g->nbytes > 0 ? g->bytes[0] : 0, x->rec.nbytes > 0 ? x->rec.bytes[0] : 0);
@@ -2073,7 +2078,13 @@ static int final_check(void *vst)
                         FAIL(st, "flow:data-before-definition", "sink %d received a buffer (seq=%" PRId64 ") before any flow definition", k, g->seq);
                     else if (!ok)
                         FAIL(st, "flow:data-while-rejecting", "sink %d received a buffer (seq=%" PRId64 ") although it rejected the last flow definition", k, g->seq);
-                    else if ((g_row->kind == K_ONE2ONE || g_row->kind == K_DUP) && g->seq >= 0 && g->seq < st->nseq) {
+                    else if (g_row->kind == K_HOLD && !g_row->flowdef_in_band && g->seq >= 0 && g->seq < st->nseq) {
+                        /* a pipe that keeps buffers: each must still come out under the definition in force when it went in */
+                        struct expect *x = &st->exp[g->seq];
+                        if (!x->reentrant && cur_id != x->flow)
+                            FAIL(st, "flow:stale-definition", "sink %d received held buffer seq=%" PRId64 " of flow %d while the last definition it accepted was flow %d", k,
+                                 g->seq, x->flow, cur_id);
+                    } else if ((g_row->kind == K_ONE2ONE || g_row->kind == K_DUP) && g->seq >= 0 && g->seq < st->nseq) {
                         struct expect *x = &st->exp[g->seq];
                         if (x->reentrant)
                             continue;
@@ -2188,7 +2199,7 @@ static int final_check(void *vst)
             return SEQX_VIOL;
         }
         if (left) {
-            snprintf(seqx_sig, sizeof(seqx_sig), "%s:end:heap-blocks-left", g_row->name);
+            snprintf(seqx_sig, sizeof(seqx_sig), "%s:end:heap-blocks-left%s", g_row->name, g_prov == 2 ? "@late-provider" : "");
             snprintf(seqx_msg, sizeof(seqx_msg), "%d heap block(s) allocated during the history are still allocated after everything was released (sizes: %s)", left, leak);
             return SEQX_VIOL;
         }
